@@ -36,6 +36,21 @@ class PtEval:
     def shape(self, node):
         return tuple(self.dim(d) for d in node.shape)
 
+    def _frozen_at(self):
+        """``at`` bound to the *current* parameter stack: reductions are evaluated
+        lazily (lock-step comparison happens later), so closures must not see
+        whatever stack is current when they finally run."""
+        stack = self._param_stack
+
+        def at(node, idx):
+            saved = self._param_stack
+            self._param_stack = stack
+            try:
+                return self.at(node, idx)
+            finally:
+                self._param_stack = saved
+        return at
+
     # -- values -------------------------------------------------------------
     def at(self, node, idx):
         import pytato.array as A
@@ -64,7 +79,8 @@ class PtEval:
         if isinstance(node, A.IndexLambda):
             env = {f"_{d}": v for d, v in enumerate(idx)}
             bindings = node.bindings
-            ev = Ev(alg, lambda name, i, e: self.at(bindings[name], i))
+            fat = self._frozen_at()
+            ev = Ev(alg, lambda name, i, e: fat(bindings[name], i))
             return ev(node.expr, env)
         if isinstance(node, A.NamedArray):
             from pytato.function import NamedCallResult
@@ -183,6 +199,7 @@ class PtEval:
                     lens[d] = n
         red = sorted({d for ds in node.access_descriptors for d in ds
                       if isinstance(d, A.EinsumReductionAxis)}, key=lambda d: d.dim)
+        fat = self._frozen_at()
 
         def term(rs):
             fs = []
@@ -194,7 +211,7 @@ class PtEval:
                     if shp[ax] == 1:
                         v = 0       # broadcast (or trivially 0) axis
                     sub.append(v)
-                fs.append(self._cast(node.dtype, arg, self.at(arg, sub)))
+                fs.append(self._cast(node.dtype, arg, fat(arg, sub)))
             return alg.op("mul", *fs) if len(fs) > 1 else fs[0]
         if not red:
             return term(())
@@ -207,11 +224,13 @@ class PtEval:
         lo = self.at(m.row_starts, (i,))
         hi = self.at(m.row_starts, (i + 1,))
 
+        fat = self._frozen_at()
+
         def body(rs):
             k, = rs
-            col = self.at(m.elem_col_indices, (k,))
-            return alg.op("mul", self._cast(node.dtype, m.elem_values, self.at(m.elem_values, (k,))),
-                          self._cast(node.dtype, node.array, self.at(node.array, (col, *idx[1:]))))
+            col = fat(m.elem_col_indices, (k,))
+            return alg.op("mul", self._cast(node.dtype, m.elem_values, fat(m.elem_values, (k,))),
+                          self._cast(node.dtype, node.array, fat(node.array, (col, *idx[1:]))))
         return alg.reduce("sum", [(lo, hi)], body)
 
     def _call_result(self, node, idx):
